@@ -139,3 +139,59 @@ def toy(a):
     from sknetwork import data
     m = sparse.coo_matrix(getattr(data, a['name'])())
     return {'shape': list(m.shape), 'coo': [[int(i), int(j), float(v)] for i, j, v in zip(m.row, m.col, m.data)]}
+
+
+def _slow_pagerank():
+    """A PageRank that computes exactly what PageRank computes and then idles for a moment before returning from fit: only the
+    schedule changes (a class of this module, so that a pool of processes can pickle it)."""
+    from sknetwork.ranking import PageRank
+    global SlowPageRank
+    if 'SlowPageRank' not in globals():
+        import time
+
+        class SlowPageRank(PageRank):
+            def fit(self, *args, **kwargs):
+                r = super(SlowPageRank, self).fit(*args, **kwargs)
+                time.sleep(0.003 + 0.004 * (float(np.sum(self.scores_[:3]) * 1e3) % 1))
+                return r
+        SlowPageRank.__module__ = __name__
+        SlowPageRank.__qualname__ = 'SlowPageRank'
+    return SlowPageRank
+
+
+def n_jobs(a):
+    """PageRankClassifier(n_jobs=k), fitted `repeat` times on one input, against the sequential classifier (n_jobs=None): the
+    per-class rankings are farmed out to a pool, whatever the pool is made of the result is a function of the input.  The
+    interpreter's thread switch interval is lowered for the duration (a pool of threads must not depend on the schedule)."""
+    import sys
+    from sknetwork.classification import PageRankClassifier
+    adj = mk_matrix(a['m'])
+    lab = np.array(a['labels'], dtype=int)
+    out = {'runs': 0, 'diff': []}
+    old = sys.getswitchinterval()
+    sys.setswitchinterval(1e-6)
+    try:
+        ref = PageRankClassifier(n_iter=a.get('n_iter', 10))
+        ref.fit(adj, lab.copy())
+        ref_labels, ref_probs = np.asarray(ref.labels_).copy(), np.asarray(ref.probs_.toarray(), dtype=float)
+        for rep in range(a.get('repeat', 5)):
+            try:
+                clf = PageRankClassifier(n_iter=a.get('n_iter', 10), n_jobs=a['n_jobs'])
+                if rep % 2 == 1:
+                    # same computation under another schedule: the ranking object idles a few milliseconds at the end of each fit
+                    slow = _slow_pagerank()(**{k_: v_ for k_, v_ in clf.algorithm.get_params().items()})
+                    clf.algorithm = slow
+                clf.fit(adj, lab.copy())
+            except Exception as e:      # noqa
+                out['diff'].append([rep, 'raises %s: %s' % (type(e).__name__, str(e)[:160])])
+                continue
+            out['runs'] += 1
+            p = np.asarray(clf.probs_.toarray(), dtype=float)
+            if not np.array_equal(np.asarray(clf.labels_), ref_labels) or p.shape != ref_probs.shape \
+                    or not np.allclose(p, ref_probs, rtol=1e-9, atol=1e-12):
+                d = float(np.abs(p - ref_probs).max()) if p.shape == ref_probs.shape else -1.0
+                out['diff'].append([rep, 'labels %s / sequential %s, max |probs difference| %g'
+                                    % (np.asarray(clf.labels_).tolist(), ref_labels.tolist(), d)])
+    finally:
+        sys.setswitchinterval(old)
+    return out
